@@ -16,7 +16,7 @@ open Js
 inductive RxT where
   /-- an opaque regex, identified by its (hex-encoded) source -/
   | atom (i : String)
-  /-- `RegexAst::Literal`, hex-encoded in the correspondence runs (equality is all that is used) -/
+  /-- `RegexAst::Literal` -/
   | lit (s : String)
   | and2 (a b : RxT)
 deriving Repr, Inhabited
@@ -396,9 +396,15 @@ def showOpt {α : Type} (f : α → String) : Option α → String
   | none => "_"
   | some a => f a
 
+def hexDigit (n : Nat) : Char := if n < 10 then Char.ofNat (48 + n) else Char.ofNat (87 + n)
+
+/-- strings travel hex-encoded (UTF-8 bytes, prefix `x`) in the canonical text -/
+def hexOfString (s : String) : String :=
+  "x" ++ String.ofList (s.toUTF8.toList.flatMap (fun b => [hexDigit (b.toNat / 16), hexDigit (b.toNat % 16)]))
+
 def showRx : RxT → String
   | .atom i => "(atom " ++ i ++ ")"
-  | .lit s => "(lit " ++ s ++ ")"
+  | .lit s => "(lit " ++ hexOfString s ++ ")"
   | .and2 a b => "(and " ++ showRx a ++ " " ++ showRx b ++ ")"
 
 mutual
@@ -416,15 +422,15 @@ def showS : Sch → String
   | .anyOf l => "(anyof" ++ (match l with | .nil => "" | _ => " ") ++ showL l ++ ")"
   | .oneOf l => "(oneof" ++ (match l with | .nil => "" | _ => " ") ++ showL l ++ ")"
   | .object props none_ ap req lo hi => "(obj (" ++ showKL props ++ ") " ++ (if none_ then "_" else showS ap) ++
-      " (" ++ " ".intercalate req ++ ") " ++ toString lo ++ " " ++ showOpt toString hi ++ ")"
+      " (" ++ " ".intercalate (req.map hexOfString) ++ ") " ++ toString lo ++ " " ++ showOpt toString hi ++ ")"
 def showL : SchL → String
   | .nil => ""
   | .cons h .nil => showS h
   | .cons h t => showS h ++ " " ++ showL t
 def showKL : SchKL → String
   | .nil => ""
-  | .cons k s .nil => "(" ++ k ++ " " ++ showS s ++ ")"
-  | .cons k s t => "(" ++ k ++ " " ++ showS s ++ ") " ++ showKL t
+  | .cons k s .nil => "(" ++ hexOfString k ++ " " ++ showS s ++ ")"
+  | .cons k s t => "(" ++ hexOfString k ++ " " ++ showS s ++ ") " ++ showKL t
 end
 
 end Sch
